@@ -78,7 +78,9 @@ def IF(
     """
     # Use delayed evaluation to only evaluate the true or false value but not
     # both.
-    return value_if_true() if logical_test() else value_if_false()
+    selected = value_if_true if logical_test() else value_if_false
+    # An omitted branch is the plain default value, not an expression.
+    return selected() if callable(selected) else selected
 
 
 @xl.register()
